@@ -32,7 +32,7 @@ type c27Case struct {
 }
 
 var c27Channels = []string{"a", "b", "c"}
-var c27Kinds = []string{"honest", "honest", "honest", "replayed-under-other-sender", "tampered-body", "channel-rewritten", "signed-for-other-channel", "other-signer", "other-signer-with-key", "wrong-context", "empty-channel", "duplicate"}
+var c27Kinds = []string{"honest", "honest", "honest", "replayed-under-other-sender", "tampered-body", "channel-rewritten", "signed-for-other-channel", "other-signer", "other-signer-with-key", "wrong-context", "no-context", "context-prefix", "context-other-channel", "empty-channel", "duplicate"}
 
 func genC27(t *rapid.T) c27Case {
 	c := c27Case{Subs: rapid.IntRange(0, 7).Draw(t, "subs")}
@@ -296,7 +296,7 @@ func checkC27(c c27Case) (o vstat.Outcome) {
 
 var specC27 = vstat.Spec[c27Case]{
 	Property: "C27",
-	Rule: "one real FloodSub node subscribed to a generated subset of channels {a,b,c}, a harness peer attached through AddPeerStream writing 1-10 publish entries (several per packet): honest, body tampered, inner channel rewritten after signing, signed for channel x but carrying y, signed by another key claiming the sender, an earlier honest message replayed with only the claimed sender rewritten, signed under a non-pubsub context, empty channel, honest for an unsubscribed channel, exact duplicates; a second harness peer subscribed to everything observes what the node forwards; in half of the cases a local subscription change right before the script puts the router into its re-evaluation pause so that the packets queue up; " +
+	Rule: "one real FloodSub node subscribed to a generated subset of channels {a,b,c}, a harness peer attached through AddPeerStream writing 1-10 publish entries (several per packet): honest, body tampered, inner channel rewritten after signing, signed for channel x but carrying y, signed by another key claiming the sender, an earlier honest message replayed with only the claimed sender rewritten, signed under a non-pubsub context / no context / the pubsub context without or with another channel, empty channel, honest for an unsubscribed channel, exact duplicates; a second harness peer subscribed to everything observes what the node forwards; in half of the cases a local subscription change right before the script puts the router into its re-evaluation pause so that the packets queue up; " +
 		"oracle (independent ed25519 check): the subscription handlers get exactly the honest entries for their channel once each with the right sender, the observer is forwarded exactly those once each, nothing is echoed to the sender; non-trivial = at least one dishonest or unsubscribed-channel entry",
 	Assumptions: []string{"in-order processing per stream: an honest marker message after the script bounds the wait (no timing used as an oracle)"},
 	Gen:         genC27,
